@@ -674,7 +674,7 @@ def stratum(x):
     if fam == "pkgs":
         return ("pkgs", p["srcname"], p["pid"].split("/")[0])
     if fam == "embed":
-        return ("embed", str(len(p["decls"][p["target"]]["es"])))
+        return ("embed", str(len(p["decls"][p["target"]]["es"])), "overlap" if x.get("overlap") else "disjoint")
     return (fam, p["pid"])
 
 
